@@ -953,7 +953,9 @@ impl BufferParser for Parser {
                         self.state = EngineState::Default;
 
                         if let Some(number) = self.parsed_numbers.first() {
-                            for _ in 0..*number {
+                            // blanks inserted beyond the right edge of the line are never visible
+                            let number = min(*number, max(0, crate::TextPane::get_width(&buf.layers[current_layer]).saturating_sub(caret.pos.x)));
+                            for _ in 0..number {
                                 caret.ins(buf, current_layer);
                             }
                         } else {
